@@ -362,6 +362,10 @@ def gen_program(rng, opts=None):
                     # caller, in the middle of building the module; the design must be as if it had never been attempted
                     t0, d0 = r.choice(emitted)
                     others = [x for x in ["comb"] + [d["name"] for d in domains] if x != d0]
+                    if t0[0] == "slice" and t0[1][0] == "sig" and r.random() < 0.5:
+                        # the refused statement addresses the whole signal, of which only these bits are driven so far: the bits
+                        # it would have been allowed to drive must stay free for their rightful driver
+                        t0 = ["sig", t0[1][1]]
                     if others:
                         stmts.append(["refused", r.choice(others), t0])
             else:
